@@ -107,6 +107,8 @@ class FnTranslator:
         self.interior = False          # multitest.rs: RefCell / anyhow / map_err are given their meaning (see mcall)
         self.externals = set()         # method names that are operations of a foreign component
         self.own_methods = {}          # method name -> qualified name of a translated method it resolves to
+        self.builder_methods = set()   # methods of foreign builder types that are built-ins of the same name
+        self.uses_features = False
 
     def con_name(self, segs):
         # (a value of a type-state builder is a record of the type, whatever the state marker)
@@ -136,6 +138,9 @@ class FnTranslator:
             return "(PCon %s %s)" % (cs(self.con_name(self.path_segs(p[1]))), clist([self.pat(q) for q in p[2:]]))
         if h == "por":
             return "(POr %s)" % clist([self.pat(q) for q in p[1:]])
+        if h == "pstruct":
+            return "(PRec %s %s)" % (cs(self.con_name(self.path_segs(p[1]))),
+                                     clist(["(%s, %s)" % (cs(S(f[1])), self.pat(f[2])) for f in p[2:] if f[0] == "pf"]))
         if h == "plit":
             return "(PLit %s)" % self.lit(p[1])
         if h == "ptuple":
@@ -230,8 +235,8 @@ class FnTranslator:
             return "(EField %s %s)" % (self.expr(e[1]), cs(S(e[2])))
         if h == "call":
             segs = self.path_segs(e[1])
-            if self.interior and "::".join(segs) in ("RefMut::map", "Ref::map") and len(e) == 4 and e[3][0] == "unsupported" \
-                    and re.fullmatch(r"expr \| (\w+) \| \1", S(e[3][1]).strip()):
+            if self.interior and "::".join(segs) in ("RefMut::map", "Ref::map") and len(e) == 4 and e[3][0] == "closure" \
+                    and len(e[3][1]) == 2 and e[3][1][1][0] == "pident" and e[3][2] == ["path", e[3][1][1][1]]:
                 return self.expr(e[2])             # a borrow mapped through the identity closure
             args = clist([self.expr(a) for a in e[2:]])
             if segs[-1][:1].isupper():
@@ -243,6 +248,8 @@ class FnTranslator:
                 tgt = FOREIGN[name]
                 if tgt == "into":
                     return "(ECall \"into\" %s)" % args
+                if tgt.startswith("call:"):
+                    return "(ECall %s %s)" % (cs(tgt[5:]), args)
                 return "(ECon %s %s)" % (cs(tgt), args)
             self.calls.add(name)
             return "(ECall %s %s)" % (cs(name), args)
@@ -272,6 +279,8 @@ class FnTranslator:
                 q = "extern::" + name
                 self.calls.add(q)
                 return "(ECall %s %s)" % (cs(q), clist([self.expr(e[1])] + [self.expr(a) for a in e[3:]]))
+            if name in self.builder_methods:
+                return "(ECall %s %s)" % (cs(name), clist([self.expr(e[1])] + [self.expr(a) for a in e[3:]]))
             if name in self.own_methods:
                 q = self.own_methods[name]
                 self.calls.add(q)
@@ -289,12 +298,27 @@ class FnTranslator:
                 return "(EIfLet %s %s %s %s)" % (self.pat(e[1][1]), self.expr(e[1][2]), self.block(e[2]), els)
             return "(EIf %s %s %s)" % (self.expr(e[1]), self.block(e[2]), els)
         if h == "match":
-            arms = []
+            arms, conditional = [], False
             for a in e[2:]:
-                if a[0] != "arm" or len(a) != 3:
+                if a[0] == "armc" and len(a) == 4 and self.interior:
+                    conditional = True
+                    arms.append((cfg_feature_list(S(a[1])), "(%s, %s)" % (self.pat(a[2]), self.block(a[3]))))
+                elif a[0] == "arm" and len(a) == 3:
+                    arms.append(([], "(%s, %s)" % (self.pat(a[1]), self.block(a[2]))))
+                else:
                     raise TranslateError("unsupported match arm (guards are not modelled): %r" % (a,))
-                arms.append("(%s, %s)" % (self.pat(a[1]), self.block(a[2])))
-            return "(EMatch %s %s)" % (self.expr(e[1]), clist(arms))
+            if conditional:
+                # arms under #[cfg(feature = ..)]: the program is a function of the enabled features
+                self.uses_features = True
+                return "(EMatch %s (cfg_arms enabled_features %s))" % (
+                    self.expr(e[1]), clist(["(%s, %s)" % (clist([cs(x) for x in fs]), t) for fs, t in arms]))
+            return "(EMatch %s %s)" % (self.expr(e[1]), clist([t for _, t in arms]))
+        if h == "try" and self.interior:
+            # `e?`: the definition of the operator (the error is converted with From::from and returned)
+            return ("(EMatch %s [(PCon \"Ok\" [PVar \"try_v\"], EVar \"try_v\"); "
+                    "(PCon \"Err\" [PVar \"try_e\"], EReturn (ECon \"Err\" [ECon \"From::from\" [EVar \"try_e\"]]))])" % self.try_operand(e[1]))
+        if h == "format" and self.interior:
+            return "(ECon \"format\" %s)" % clist(["(EConst (VStr %s))" % cs(S(e[1]))] + [self.expr(a) for a in e[2:]])
         if h == "while":
             return "(EWhile %s %s)" % (self.expr(e[1]), self.block(e[2]))
         if h == "forrange":
@@ -326,6 +350,28 @@ class FnTranslator:
             raise TranslateError("construct outside the translated subset: %s" % S(e[1])[:160])
         raise TranslateError("unknown expression head %r" % (h,))
 
+    def try_operand(self, e):
+        """operand of `?`; the idiom `xs.into_iter().map(|v| BODY).collect::<StdResult<_>>()` is given its meaning: BODY is
+        applied to the elements in order until the first Err, which is the result; otherwise Ok of the list of results"""
+        if (e[0] == "mcall" and S(e[2]).replace(" ", "") in ("collect<StdResult<_>>", "collect<Result<_,_>>") and len(e) == 3
+                and e[1][0] == "mcall" and S(e[1][2]) == "map" and len(e[1]) == 4 and e[1][3][0] == "closure"
+                and e[1][1][0] == "mcall" and S(e[1][1][2]) == "into_iter" and len(e[1][1]) == 3):
+            clo = e[1][3]
+            if len(clo[1]) != 2 or clo[1][1][0] != "pident":
+                raise TranslateError("closure with other than one plain parameter")
+            v, body, src = S(clo[1][1][1]), self.expr(clo[2]), self.expr(e[1][1][1])
+            return ("(EBlock [SLet (PVar \"collect_src\") %s; SLet (PVar \"collect_acc\") (EArr []); "
+                    "SLet (PVar \"collect_res\") (ECon \"Ok\" [EConst VUnit]); "
+                    "SExpr (EFor \"collect_i\" (EConst (VNat 0)) (ECall \"len\" [EVar \"collect_src\"]) "
+                    "(EBlock [STail (EIfLet (PCon \"Ok\" [PWild]) (EVar \"collect_res\") "
+                    "(EBlock [SLet (PVar %s) (EIndex (EVar \"collect_src\") (EVar \"collect_i\")); "
+                    "STail (EMatch %s [(PCon \"Ok\" [PVar \"collect_v\"], EAssign \"collect_acc\" [] (ECall \"push\" [EVar \"collect_acc\"; EVar \"collect_v\"])); "
+                    "(PCon \"Err\" [PVar \"collect_e\"], EAssign \"collect_res\" [] (ECon \"Err\" [EVar \"collect_e\"]))])]) "
+                    "(EConst VUnit))])); "
+                    "STail (EMatch (EVar \"collect_res\") [(PCon \"Ok\" [PWild], ECon \"Ok\" [EVar \"collect_acc\"]); "
+                    "(PCon \"Err\" [PVar \"collect_e\"], ECon \"Err\" [EVar \"collect_e\"])])])" % (src, cs(v), body))
+        return self.expr(e)
+
     def unwrap_default_name(self, recv):
         """`x.unwrap_or_default()`: only on a field of self whose declared type is Option<String>"""
         if recv[0] == "field" and recv[1][0] == "path" and self.path_segs(recv[1]) == ["self"]:
@@ -336,7 +382,20 @@ class FnTranslator:
 
 
 # functions of other crates with a fixed meaning: a constructor of the value they build, or a value-preserving conversion
-FOREIGN = {"StdError::generic_err": "StdError::GenericErr", "Addr::unchecked": "into", "RefCell::new": "into"}
+FOREIGN = {"StdError::generic_err": "StdError::GenericErr", "Addr::unchecked": "into", "RefCell::new": "into",
+           "Response::new": "call:Response::new"}
+
+
+def cfg_feature_list(text):
+    """`cfg (feature = "a")`, `cfg (all (feature = "a" , feature = "b"))`, several joined by && -> the features required"""
+    t = "".join(text.split())
+    feats = []
+    for part in t.split("&&"):
+        m = re.fullmatch(r'cfg\((?:all\()?((?:feature="[\w-]+",?)+)\)?\)', part)
+        if not m:
+            raise TranslateError("condition of a match arm outside the subset (only feature = .. and all(..)): %s" % text)
+        feats += re.findall(r'feature="([\w-]+)"', m.group(1))
+    return feats
 
 
 def translate_fn(sx, self_type=None, struct_fields=None, qualified=None, setup=None):
@@ -389,7 +448,7 @@ def fetch_ast(path):
 
 
 BUILTINS = {"len", "is_empty", "konst::cmp_str", "konst::eq_str", "into", "to_string", "unwrap_or_default_string", "Binary::default",
-            "anyhow::is", "anyhow::downcast", "unwrap"}
+            "anyhow::is", "anyhow::downcast", "unwrap", "push", "Response::new", "add_submessages", "add_events", "add_attributes"}
 
 
 def translate_utils():
@@ -518,6 +577,20 @@ def translate_multitest():
     raise TranslateError("multitest.rs: fn downcast_error not found")
 
 
+RESP_WANTED = {"SubMsg": ["into_msg"], "Response": ["into_response"]}
+
+
+def translate_response():
+    """sylvia/src/into_response.rs: IntoMsg for SubMsg<Empty>, IntoResponse for Response<Empty>. The arms under
+    #[cfg(feature = ..)] make the program a function of the enabled features."""
+    def setup(t):
+        t.interior = True
+        t.own_methods = {"into_msg": "SubMsg::into_msg"}
+        t.builder_methods = {"add_submessages", "add_events", "add_attributes"}
+    return translate_methods("into_response.rs", RESP_WANTED, setup=setup,
+                             extra_known={"push", "Response::new", "add_submessages", "add_events", "add_attributes"})
+
+
 TYPES_WANTED = {"ExecutorBuilder[Empty]": ["new"], "ExecutorBuilder": ["with_funds", "funds", "contract"],
                 "ExecutorBuilder[Ready]": ["new", "build"],
                 "Remote": ["new", "borrowed", "executor", "update_admin", "clear_admin"]}
@@ -551,6 +624,11 @@ def generate():
     except TranslateError as e:
         mt, _ = [], errors.append("sylvia/src/multitest.rs: %s" % e)
 
+    try:
+        resp = translate_response()
+    except TranslateError as e:
+        resp, _ = [], errors.append("sylvia/src/into_response.rs: %s" % e)
+
     def prog(fns):
         return "  [ " + ";\n    ".join(fns) + " ]." if fns else "  []."
     text = "\n".join([
@@ -567,7 +645,9 @@ def generate():
         "(* sylvia/src/ctx.rs: the conversions of the entry-point argument tuples into the handler contexts *)",
         "Definition ctx_program : program :=", prog(ctxs), "",
         "(* sylvia/src/multitest.rs: the proxies that send execute / migrate messages to the chain, and downcast_error *)",
-        "Definition mt_program : program :=", prog(mt), ""])
+        "Definition mt_program : program :=", prog(mt), "",
+        "(* sylvia/src/into_response.rs: IntoMsg / IntoResponse; `enabled_features` = the cargo features switched on *)",
+        "Definition resp_program (enabled_features : list string) : program :=", prog(resp), ""])
     return text, errors
 
 
